@@ -345,8 +345,11 @@ def extra(check, ci, cm, cases):
                                     'x=%d y=%d: implementation shade %s, composition %s; one-pixel replay: the scene '
                                     'lines followed by "scn.px %d %d"' % (x, y, ci[cid][y][x], sp[y][x], x, y)))
     _info['spec_evaluator_scenes'] = done
-    if _side:
-        si, sm, errs = verifkit.run_both(_side, 'C15_side', None)
+    if _side and cm:
+        try:
+            si, sm, errs = verifkit.run_both(_side, 'C15_side', None)
+        except OSError:
+            return out
         agree = sum(1 for cid, _ in _side if si.get(cid) == sm.get(cid) and si.get(cid))
         _info['side_ties'] = dict(what='overlaps_for_line per line and OAM.ppuLastAccess after each drawing machine '
                                        'cycle (render_pixel_last_access); not observables of C15, reported only',
